@@ -17,6 +17,7 @@ ASSUMPTIONS = ["induced residue-pattern matching is the meaning of 'connected as
                "cases whose outcome depends on link application order (inter-residue non-edges on link-made "
                "edges, competing replace values) are counted and not asserted",
                "the .itp reader pbt/itp.py"]
+RULE += (' Links also come without a link-wide resname (atoms of one residue named, the others open), with force-field messages, as typed links with a plain counterpart and with "edge": false bonds declared under [ edges ] (.ff inputs), and as dangling terms on .itp atoms that share their name with another atom (told apart by atom number).')
 BUDGET = {"quick": (16, 200), "thorough": (16, 5000)}
 
 
